@@ -45,7 +45,9 @@ SHAPES = {
     ]),
     "hdl": dict(fields=[("m", "Instantiable")], values=[("ModA", dict(m="ModA")), ("ModB", dict(m="ModB")), ("R1", dict(m="R1")), ("R2", dict(m="R2")), ("E1", dict(m="E1")), ("E2", dict(m="E2")),
         # calls of an external module with dict parameters: equal dicts written in different key orders, and a different one
-        ("D1", dict(m="D1")), ("D1r", dict(m="D1r")), ("D2", dict(m="D2"))]),
+        ("D1", dict(m="D1")), ("D1r", dict(m="D1r")), ("D2", dict(m="D2")),
+        # an external module of the same name in another domain; two whose (name + readable parameters) concatenate alike
+        ("E1x", dict(m="E1x")), ("S1", dict(m="S1")), ("S2", dict(m="S2"))]),
 }
 
 
@@ -90,7 +92,19 @@ def make_env():
 
     ext = h.ExternalModule(name="Ext", port_list=[h.Port(name="x")], paramtype=EP, domain="hv")
     extd = h.ExternalModule(name="ExtD", port_list=[h.Port(name="x")], paramtype=dict, domain="hv")
-    objs = dict(ModA=modA, ModB=modB, R1=h.R(r=1), R2=h.R(r=2), E1=ext(k=1), E2=ext(k=2),
+    ext_other = h.ExternalModule(name="Ext", port_list=[h.Port(name="x")], paramtype=EP, domain="another_pdk")
+
+    @h.paramclass
+    class PXY:
+        xy = h.Param(dtype=int, desc="xy", default=0)
+
+    @h.paramclass
+    class PY:
+        y = h.Param(dtype=int, desc="y", default=0)
+
+    ext_s1 = h.ExternalModule(name="Sep", port_list=[h.Port(name="x")], paramtype=PXY, domain="hv")
+    ext_s2 = h.ExternalModule(name="Sepx", port_list=[h.Port(name="x")], paramtype=PY, domain="hv")
+    objs = dict(ModA=modA, ModB=modB, R1=h.R(r=1), R2=h.R(r=2), E1=ext(k=1), E2=ext(k=2), E1x=ext_other(k=1), S1=ext_s1(xy=1), S2=ext_s2(y=1),
                 D1=extd(dict(w=1, l=2, m=3)), D1r=extd(dict(m=3, l=2, w=1)), D2=extd(dict(w=1, l=2, m=4)))
 
     def conv(shape, kw):
